@@ -1,6 +1,6 @@
 """C02 -- and/or/xor are pointwise Boolean algebra with null as identity; operands unaltered.
 
-T part: all and/or/xor trees up to a depth bound over a 6-leaf pool (null in every position),
+T part: all and/or/xor trees up to a depth bound over a 7-leaf pool (null in every position),
 built three ways (operators, class constructors, spec lists), judged relationally on the
 operands' own results and absolutely by the reference model.
 H part: explicit-state BFS over combine-histories on a pool of *shared live* operand objects;
@@ -17,7 +17,7 @@ from mc.snapshot import snap
 from valida import conditions as C
 
 META = {
-    "rule": "T: every tree (depth bound) over {null,v1,v2,v3,k1,i1} x 3 construction ways x documents; "
+    "rule": "T: every tree (depth bound) over {null,v1,v2,v3,k1,i1,Value.null()} x 3 construction ways x documents; "
             "H: every history of combine(op, i, j, way) transitions on a pool of shared live conditions "
             "(state = identity-aware snapshot of the pool, merged when equal); non-trivial = the tree has "
             "at least one operator and its result vector was compared with the pointwise combination",
@@ -38,6 +38,7 @@ LEAVES = {
     "v3": T.leaf("Value", "equal_to", 3),
     "k1": T.leaf("Key", "in_", ["a", "b"]),
     "i1": T.leaf("Index", "less_than", 2),
+    "vn": T.leaf("Value", "null"),   # an ordinary always-true condition: NOT the null condition
 }
 OPS = {"and": operator.and_, "or": operator.or_, "xor": operator.xor}
 CLS = {"and": C.ConditionAnd, "or": C.ConditionOr, "xor": C.ConditionXor}
@@ -67,7 +68,7 @@ def spec_of(t):
         return {}
     if t[0] == "leaf":
         _, cls, call, args, kwargs = t
-        return {"%s.%s" % (T.SPEC_LABEL[cls], call): fresh(args[0])}
+        return {"%s.%s" % (T.SPEC_LABEL[cls], call): fresh(args[0]) if args else None}
     return {t[0]: [spec_of(t[1]), spec_of(t[2])]}
 
 
@@ -112,6 +113,10 @@ def expected_rel(t, doc, memo):
     return memo[k]
 
 
+def prepare(tier):
+    trees(2 if tier == "quick" else 3)
+
+
 def units(tier):
     depth = 2 if tier == "quick" else 3
     n = len(trees(depth))
@@ -135,7 +140,7 @@ def run_unit(unit, tier):
     elif unit[0] == "N":
         for op in OPS:
             for n in range(0, 4):
-                for tup in itertools.product(["null", "v1", "v2", "k1"], repeat=n):
+                for tup in itertools.product(["null", "v1", "v2", "k1", "vn"], repeat=n):
                     check_nary(res, op, tup)
     else:
         _, depth, first = unit
@@ -263,7 +268,7 @@ H_DOCS = [LIST_DOCS[0], MAP_DOCS[0]]
 
 def h_initial_terms():
     L = LEAVES
-    return [L["null"], L["v1"], L["v2"], L["v3"], L["k1"], L["i1"],
+    return [L["null"], L["v1"], L["v2"], L["v3"], L["k1"], L["i1"], L["vn"],
             ("and", L["v1"], L["v2"]), ("or", L["v1"], L["v2"])]
 
 
